@@ -354,6 +354,26 @@ def check_parse_line(ctx, rep):
                 rep.violates(RULE + '.empty', f, c, 'the declaration {} is read with check_non_empty = {} (effective value: the call passes none, the default applies), so `final` with no states is rejected -- but an automaton without accepting states is legal and the printers write exactly that line: the library cannot read back its own output and the checkers reject its own answers'.format(kw, u(eff) if eff is not None else 'True'))
             else:
                 rep.holds(RULE + '.empty', f, c, 'an empty {} declaration is accepted (effective check_non_empty is {})'.format(kw, u(eff) if eff is not None else 'absent'))
+    # table form:  KEYWORDS = {'final': ('final_states', False), ...} ; attr, flag = KEYWORDS[head] ; parse_state_set(head, args, check_non_empty=flag)
+    if not any(c.args and u(c.args[0]) == "'final'" for c in _self_calls(f, 'parse_state_set')):
+        tables = []
+        for src in ([f.cls.node] if f.cls is not None and getattr(f.cls, 'node', None) is not None else []) + [f.node]:
+            for d0 in ast.walk(src):
+                if isinstance(d0, ast.Dict):
+                    for k0, v0 in zip(d0.keys, d0.values):
+                        if isinstance(k0, ast.Constant) and k0.value == 'final' and isinstance(v0, ast.Tuple):
+                            flags = [x for x in v0.elts if isinstance(x, ast.Constant) and isinstance(x.value, bool)]
+                            if len(flags) == 1:
+                                tables.append((d0, flags[0]))
+        dyn = [c for c in _self_calls(f, 'parse_state_set') if any(k.arg == 'check_non_empty' and isinstance(k.value, ast.Name) for k in c.keywords) or (len(c.args) >= 3 and isinstance(c.args[2], ast.Name))]
+        if len(tables) == 1 and dyn:
+            n += 1
+            eff = tables[0][1]
+            rejects_empty = guard_uses_flag and eff.value is not False
+            if rejects_empty and f_may_be_empty:
+                rep.violates(RULE + '.empty', f, dyn[0], 'the keyword table reads the declaration final with check_non_empty = True, so `final` with no states is rejected -- but an automaton without accepting states is legal and the printers write exactly that line')
+            else:
+                rep.holds(RULE + '.empty', f, dyn[0], 'an empty final declaration is accepted (the keyword table gives check_non_empty = False for it)')
     return n
 
 
